@@ -10,3 +10,11 @@ func newAtTop(f errdef.Factory, msg string) error {
 //line /verif/harness/cmd/vh/testdata/top.go:2
 	return f.New(msg)
 }
+
+// ... and to the LAST line of the same file: the window is clipped at the end of the file.
+//
+//go:noinline
+func newAtBottom(f errdef.Factory, msg string) error {
+//line /verif/harness/cmd/vh/testdata/top.go:6
+	return f.New(msg)
+}
